@@ -21,3 +21,13 @@ func (h *Handler) VerifHuntList() []packet.Addr {
 	sort.Slice(out, func(i, j int) bool { return string(out[i].MAC) < string(out[j].MAC) })
 	return out
 }
+
+// VerifSetHunt replaces the hunt list without starting spoof loops (function-mode probes of ProcessPacket).
+func (h *Handler) VerifSetHunt(addrs []packet.Addr) {
+	h.arpMutex.Lock()
+	defer h.arpMutex.Unlock()
+	h.huntList = make(map[string]packet.Addr, len(addrs))
+	for _, a := range addrs {
+		h.huntList[string(a.MAC)] = a
+	}
+}
